@@ -446,7 +446,11 @@ def _execute(prop, scen):
                     run.count("probe:another-model-asked-first-at-the-same-conditioning-value")
                     site = f"dim{dim}/after-another-model"
                 if k == "cond_sample":
-                    x = np.asarray(api(t.conditional_sample, op["n"], dim, [g], random_state=op["seed"]), dtype=float)
+                    g_arg = [g]
+                    if op.get("given_literal") is not None and float(g).is_integer() and si % 2 == 0:
+                        g_arg = [int(g)]  # a whole number written as an integer (Hs = 3 m)
+                        run.count("probe:integer-typed-conditioning-value")
+                    x = np.asarray(api(t.conditional_sample, op["n"], dim, g_arg, random_state=op["seed"]), dtype=float)
                     run.event(k, [dim, op["given_q"], op["n"], op["seed"]], x)
                     if len(x) != op["n"]:
                         run.violate("I3-conditional-sample-size", site, {"got": len(x), "want": op["n"], "given": g, "step": si})
